@@ -27,6 +27,8 @@ def check(chk, repo):
     check_seeding(rep, "", comp, repo)
     from ..common import check_fresh_graph, check_model_premises
     check_model_premises(rep, repo)
+    from ..common import check_learn_state_premise
+    check_learn_state_premise(rep, repo)
     check_fresh_graph(rep, w, comps[0].loop.first_seq)
     check_fmax_competition(rep, "", comp)
     stats = run_kinds(rep, w)
